@@ -893,6 +893,8 @@ def main(tier, seed):
                                 tag = "scalar-bool"
                             elif leaf[0] == "prim" and leaf[1] in ("u32", "usize", "DiplomatChar") and isinstance(gv, int) and gv < 0:
                                 tag = "large-u32"
+                            elif leaf == ("prim", "u64") and isinstance(gv, str) and gv.startswith("big:-"):
+                                tag = "large-u64"
                         res["viol"].append((cid, abi_name, "Rust -> JS: reading rustc's bytes gives %s, the stored value is %s" % (json.dumps(r.get("give"))[:300], json.dumps(expj)[:300]), w, tag))
                     if not direct_ret and (not ga or ga[0][1] != lay["size"] or ga[0][2] != lay["align"]):
                         res["viol"].append((cid, abi_name, "Rust -> JS: receive buffer allocated as (size, align) = %s, rustc says (%d, %d)" % (ga[0][1:] if ga else None, lay["size"], lay["align"]), w))
@@ -997,6 +999,8 @@ def main(tier, seed):
                 key = {"signature": "single-bool struct returned by value is read back as 0/1 instead of false/true"}
             if tag == "large-u32":
                 key = {"signature": "u32 >= 2^31 in a struct returned by value arrives negative"}
+            if tag == "large-u64":
+                key = {"signature": "u64 >= 2^63 in a struct returned by value arrives negative"}
             if "option flag byte" in msg and "(None)" in msg and "JS left cd" in msg:
                 key = {"signature": "spec ABI: None option field leaves the flag byte unwritten"}
             chk.violation("b%d_%s_%s" % (bi, cid.replace("#", "v"), abi), "js.abi=%s struct %s: %s" % (abi, cid, msg), w, key=key)
